@@ -1,6 +1,7 @@
 package main
 
 import (
+	"go/types"
 	"fmt"
 	"go/token"
 	"os"
@@ -1060,4 +1061,42 @@ func (c *Ctx) returnsOf(fn *ssa.Function) []*ssa.Return {
 		}
 	}
 	return out
+}
+
+// ruleBackingCap: the capacity that matters is the configured one (the word
+// in the configuration record); the capacity of the backing array - builtin
+// cap() of a stack header - depends on allocation history (append growth,
+// re-slicing) and must never take part in a decision or a comparison.  Every
+// builtin cap() whose operand is a stack is reported.
+func (c *Ctx) ruleBackingCap() {
+	rep := c.rep
+	n := 0
+	for _, fn := range c.p.Funcs {
+		ord := newOrdinal()
+		for _, b := range fn.Blocks {
+			for _, in := range b.Instrs {
+				call, ok := in.(*ssa.Call)
+				if !ok {
+					continue
+				}
+				bi, ok := call.Call.Value.(*ssa.Builtin)
+				if !ok || bi.Name() != "cap" || len(call.Call.Args) != 1 {
+					continue
+				}
+				t := call.Call.Args[0].Type()
+				if pt, ok := t.Underlying().(*types.Pointer); ok {
+					t = pt.Elem()
+				}
+				if !c.eff.isStackTyped(t) {
+					continue
+				}
+				n++
+				rep.bad("R-BACKCAP", relName(fn), ord.next("cap() of a stack header"), c.p.instrPos(in), "the backing array's capacity of a stack is consulted: it differs from the configured capacity as soon as the array was re-allocated (remove, insert, append growth)")
+			}
+		}
+	}
+	rep.Extra["backing_array_capacity_reads"] = n
+	if n == 0 {
+		rep.ok("R-BACKCAP", "package", "cap() of a stack header", "?", "builtin cap() is never applied to a stack: only the configured capacity is ever consulted")
+	}
 }
